@@ -69,6 +69,13 @@ CLAIMED["C08"] = (
     "DESIGN.md §3 C08",
 )
 
+CLAIMED["C15"] = (
+    "ast effect/ordering rules on the two writer classes: transitive accumulating-mutation summary of self fields vs re-initialisation order in each public write method, reachability of reads of module-level mutable cells and clocks through the builder call graph, syntax-directed dominance of file sinks by the skip-return",
+    "Decides per public write call (hence for every interleaving of constructions and writes): every writer field that is filled while writing is re-created before it is filled; the shared decimal-precision cell read by float_to_str is set from the writer's own stored precision before any node is built; every file sink is dominated by the overwrite policy's skip-return and SKIP answers skip; the only clock read feeds the date stamp. Byte equality of outputs as such is not decided.",
+    "Trusts that lxml/protobuf objects carry no hidden global state and single-threaded use (the shared cell is re-established per write, not made thread-safe).",
+    "DESIGN.md §3 C15",
+)
+
 NOT_APPLICABLE = {
     "C17": "modular arithmetic over runtime integers (%, cumsum, argmax): no sound static argument in reach; the only structural part (memo freshness) is decided under C11, and 'TrafficLight delegates to its cycle' is sufficient but not necessary, so a rule on it would fire on behaviour-preserving edits",
 }
